@@ -352,7 +352,24 @@ def named_reader(ctx, fn, helpers=(), depth=0):
             elif last == 'from_le_bytes' or (last in GET_W and 'Buf' in decl) or (last in READ_W and ('AsyncReadExt' in decl or 'io::Read' in decl)) \
                     or last in ('from_utf8', 'from_utf8_lossy', 'copy_to_bytes') or (c.name in helpers and c.name != fn):
                 reads.append(c)
-        if not reads:
+        # single bytes taken by index (`bytes[pos]`): no call to anchor on, the read is the statement that copies the element
+        idx_reads = []
+        for blk in sorted(b.reach):
+            for st in b.stmts(blk):
+                rv = st.get('rv')
+                if not rv or st.get('x', '').startswith('m:') or rv['r'] not in ('use', 'cast'):
+                    continue
+                a = rv.get('a') or {}
+                pl = a.get('c') or a.get('m')
+                if not pl or not any(isinstance(pr, list) and pr and pr[0] in ('[]', '[c]') for pr in pl[1:]):
+                    continue
+                lhs = st.get('lhs')
+                if not lhs or len(lhs) != 1 or b.locals[lhs[0]] not in ('u8',):
+                    continue
+                e = b._pexpr_rvalue(rv, 0, frozenset())
+                if e[0] == 'index':
+                    idx_reads.append((st.get('ln') or 0, blk, e))
+        if not reads and not idx_reads:
             continue
         sinks = []   # (expr, label)  aggregate fields
         csinks = []  # (expr, label)  callee parameters
@@ -387,8 +404,42 @@ def named_reader(ctx, fn, helpers=(), depth=0):
                 if labels:
                     break
             out.append((c.ln or 0, c.bb, ['+'.join(sorted(labels)) or '_']))
+        for ln, blk, e in idx_reads:
+            labels = set()
+            for group in (sinks, csinks):
+                best = None
+                for se, n in group:
+                    dd_ = _depth_of_node(se, e)
+                    if dd_ is None:
+                        continue
+                    if best is None or dd_ < best:
+                        best, labels = dd_, {n}
+                    elif dd_ == best:
+                        labels.add(n)
+                if labels:
+                    break
+            out.append((ln, blk, ['+'.join(sorted(labels)) or '_']))
     out.sort(key=lambda x: (x[0], x[1]))
     return [l for x in out for l in x[2]]
+
+
+def _depth_of_node(e, node, d=0):
+    if not isinstance(e, tuple) or not e or d > 25:
+        return None
+    if e == node:
+        return d
+    if isinstance(e[0], str):
+        if e[0] in ('const', 'constitem', 'param', 'upvar', 'local', 'fnitem'):
+            return None
+        kids = e[1:]
+    else:
+        kids = e
+    best = None
+    for x in kids:
+        r = _depth_of_node(x, node, d + 1)
+        if r is not None and (best is None or r < best):
+            best = r
+    return best
 
 
 def named_agreement(w, r):
